@@ -185,9 +185,9 @@ check('C10', 'model_checking',
       'the two tables, total = power sum, V/m ~ sqrt(P)/r, rows 360 degrees apart identical, zenith total independent of azimuth. A third of '
       'the configurations are also SOLVED with two generators 90 degrees apart (one usually absorbing power): the dBi table must be the '
       'radiation sum of the solved currents over the input power sum Re(V I*)/2 computed by the harness.',
-      'The 2 % comparison with the exact integral over the straight half segments is not checked separately: given clause 1 it is a statement '
-      'of mathematics (sin(x)/x factor below 0.13 % for segments up to lambda/18). The sum is evaluated in floating point by the harness, TLC '
-      'supplies the discrete pulse table.',
+      'Clause 2 (2 % of the exact integral over the straight half segments, segments up to lambda/18) is evaluated on the solved '
+      'configurations; it exceeds 2 % for small bent structures although clause 1 holds to 1e-9 (recorded known finding, identified by that '
+      'cause). The sums are evaluated in floating point by the harness, TLC supplies the discrete pulse table.',
       'TLC pulse tables + independent radiation sum vs the real far-field code with injected currents', 'DESIGN.md 4 C10')
 
 check('C06', 'exploration',
